@@ -330,6 +330,8 @@ func execAsm(c asmCase) asmRun {
 		case 'I', 'B', 'L':
 			before := snapshot(e, names)
 			pc := e.PC()
+			len0 := e.Len()
+			bytes0 := append([]byte{}, e.Bytes()...)
 			var p bool
 			switch o.kind {
 			case 'I':
@@ -366,9 +368,17 @@ func execAsm(c asmCase) asmRun {
 						s.refs = append(s.refs, refRec{o.label, pc + 1, wide})
 					}
 				}
-				if e.Cap() > 0 || c.cap == 0 {
-					if e.Len() > e.Cap() && mkTarget(c.cap) != nil {
+				hasTarget := (s == orig && c.cap >= 0) || (s != orig && e.Cap() > 0)
+				if hasTarget {
+					if e.Len() > e.Cap() {
 						complain("C19", fmt.Sprintf("Len %d exceeds Cap %d", e.Len(), e.Cap()))
+					}
+					// all-or-nothing: an accepted emission stores every byte (length grows by what the PC advanced)
+					if o.kind != 'L' && (e.Len()-len0 != int(e.PC()-pc) || !bytes.HasPrefix(e.Bytes(), bytes0)) {
+						complain("C19", fmt.Sprintf("accepted %s stored %d bytes but advanced the PC by %d (partial emission)", o, e.Len()-len0, e.PC()-pc))
+					}
+					if o.kind == 'B' && !bytes.Equal(e.Bytes()[len0:], o.data) {
+						complain("C19", fmt.Sprintf("accepted data block is not what Bytes() shows"))
 					}
 				}
 			}
